@@ -21,6 +21,10 @@ def fnv (b : List Nat) : String :=
   let hex := (Nat.toDigits 16 h.toNat)
   String.ofList (List.replicate (8 - hex.length) '0' ++ hex)
 
+/-- the credential-style headers the harness adds to requests with an odd body length, as the handler must see them. -/
+def credOf (n : Nat) : List Nat :=
+  (if n % 2 == 1 then "Bearer s3cr3t-token|session=abc123|k-123|one,two" else "|||").toUTF8.toList.map (·.toNat)
+
 def bodyOf (n : Nat) : List Nat := (List.range n).map (fun i => 97 + i % 23)
 
 def traceStr (t : Trace) : String :=
@@ -90,7 +94,7 @@ def step (cs : CaseSt) (op obs : String) : CaseSt × R :=
       let (m, clause, br) : String × String × String := match d, resp with
         | .handler id, some rp =>
           -- handlers with id % 5 = 4 set no Content-Type and no status (implicit 200, type sniffed by net/http from the body's first bytes)
-          (s!"status={if id % 5 == 4 then 200 else rp.status} xh={id} saw={id}:{r.method}:{r.path}:same:{n}:{fnv r.body} bodysum={fnv r.body} echo={if rp.body == id :: r.body then 1 else 0} trace={traceStr t} ct={if id % 5 == 4 then "text/html;_charset=utf-8" else "application/x-tv"}",
+          (s!"status={if id % 5 == 4 then 200 else rp.status} xh={id} saw={id}:{r.method}:{r.path}:same:{n}:{fnv r.body}:{fnv (credOf n)} bodysum={fnv r.body} echo={if rp.body == id :: r.body then 1 else 0} trace={traceStr t} ct={if id % 5 == 4 then "text/html;_charset=utf-8" else "application/x-tv"}",
            if l == .https then "C17.https_routes_served" else "C17.routes_and_middleware", s!"req.{if l == .https then "https" else "http"}.hit")
         | .notFound, _ => (s!"status=404 xh=- saw=none bodysum={fnv r.body} echo=0 trace=none ct=text/plain;_charset=utf-8", "C17.others_rejected", "req.404")
         | .methodNotAllowed, _ => (s!"status=405 xh=- saw=none bodysum={fnv r.body} echo=0 trace=none ct=text/plain;_charset=utf-8", "C17.others_rejected", "req.405")
@@ -114,7 +118,7 @@ def step (cs : CaseSt) (op obs : String) : CaseSt × R :=
   | "scenario" =>
     let ls := ((getF fs "listeners").getD "").splitOn ","
     let k := (getNat fs "inflight").getD 0
-    let ample := getF fs "ctx" == some "ample"
+    let ample := getF fs "ctx" == some "ample" || getF fs "ctx" == some "tight"   -- tight: still enough for the request as a whole
     let ready := getF fs "timing" == some "ready"
     let web := ls.contains "http" || ls.contains "https"
     let started := if web && ready then k else 0
